@@ -296,22 +296,32 @@ def maxKey {V : Type} : List (Rat × V) → Option Rat
     | none => some k
     | some m => some (if m ≤ k then k else m)
 
-/-- `ThermochemBase.__init__` (assertion) followed by `_setup_correlation` → `ThermochemRawData.__init__` (range checks);
-with an empty table no internal correlation is built and nothing is checked beyond the assertion. -/
-def checkValid {V : Type} (cp : List (Rat × V)) (Tref : Rat) (range : Option (Rat × Rat)) : Except CErr Unit :=
+/-- the checks of `ThermochemRawData.__init__` on a non-empty table with span `[mn, mx]`: with an explicit range the
+table and `T_ref` must lie inside it; without one the range is the span of the table and must contain `T_ref` -/
+def rawCheck (mn mx Tref : Rat) (range : Option (Rat × Rat)) : Except CErr Unit :=
   match range with
   | some (lo, hi) =>
-    if hi < lo then .error .assertion else
-    match minKey cp, maxKey cp with
-    | some mn, some mx =>
-      if mn < lo ∨ hi < mx then .error .value
-      else if Tref < lo ∨ hi < Tref then .error .value
-      else .ok ()
-    | _, _ => .ok ()
-  | none =>
-    match minKey cp, maxKey cp with
-    | some mn, some mx => if Tref < mn ∨ mx < Tref then .error .value else .ok ()
-    | _, _ => .ok ()
+    if mn < lo ∨ hi < mx then .error .value
+    else if Tref < lo ∨ hi < Tref then .error .value
+    else .ok ()
+  | none => if Tref < mn ∨ mx < Tref then .error .value else .ok ()
+
+/-- `_setup_correlation`: with an empty table no internal correlation is built and nothing is checked -/
+def setupCheck {V : Type} (cp : List (Rat × V)) (Tref : Rat) (range : Option (Rat × Rat)) : Except CErr Unit :=
+  match minKey cp, maxKey cp with
+  | some mn, some mx => rawCheck mn mx Tref range
+  | _, _ => .ok ()
+
+/-- `ThermochemBase.__init__`: `assert range[1] >= range[0]` -/
+def rangeAssert (range : Option (Rat × Rat)) : Except CErr Unit :=
+  match range with
+  | some (lo, hi) => if hi < lo then .error .assertion else .ok ()
+  | none => .ok ()
+
+/-- the constructor `ThermochemIncomplete(H, S, cp, Tref, range)`: assertion, then `_setup_correlation` -/
+def checkValid {V : Type} (cp : List (Rat × V)) (Tref : Rat) (range : Option (Rat × Rat)) : Except CErr Unit := do
+  rangeAssert range
+  setupCheck cp Tref range
 
 /-! ### `yaml_construct` -/
 
@@ -400,5 +410,16 @@ def loadEntry (tab : UnitTable) (R : QV) (K : UnitQ) (units : List (Kind × Stri
   | .seq _ => .error .inputData
   | .qstr _ _ => .error .inputData
   | .bad => .error .inputData
+
+/-- the property sets of one group (`Library.py` 246-262): an object loader with the single optional member
+`thermochem` of type `ThermochemGroup`; `none` = the group has no `thermochem` entry -/
+def loadPropertySets (tab : UnitTable) (R : QV) (K : UnitQ) (units : List (Kind × String)) : YVal → Except LoadErr (Option Loaded)
+  | .map data =>
+    match data.lookup "thermochem" with
+    | none => .ok none
+    | some v => do
+      let c ← loadEntry tab R K units v
+      .ok (some c)
+  | _ => .error .inputData
 
 end PGA.Yaml
